@@ -200,3 +200,56 @@ func originCalls(o *origin.O, f *ssa.Function) bool {
 	}
 	return false
 }
+
+
+// failEdgeNoReturn: in a command's main function the failure edge of the error check of `call` ends, on every path, in a
+// call that does not return (log.Fatal, os.Exit with a non-zero status, a fatal helper) and never joins the success path.
+func failEdgeNoReturn(e *Env, p *load.Program, rule, key string, call *ssa.Call) bool {
+	r := e.R
+	errv := flow.ErrResult(call)
+	if errv == nil {
+		r.Unknown(rule, key, p.Pos(call.Pos()), "call has no error result")
+		return false
+	}
+	checks := flow.FindErrChecks(errv)
+	if len(checks) == 0 {
+		r.Bad(rule, key, p.Pos(call.Pos()), fmt.Sprintf("the error returned by %s is never compared with nil: the command goes on with a missing or partial result", calleeName(call)))
+		return false
+	}
+	ok := true
+	g := flow.G(call.Parent())
+	for _, ec := range checks {
+		if !flow.InstrDominates(call, ec.If) {
+			continue
+		}
+		region := flow.Region(ec.If.Block(), ec.Fail)
+		if len(region) == 0 {
+			r.Bad(rule, key, p.Pos(ec.If.Pos()), fmt.Sprintf("after %s failed the command continues as if it had succeeded (the failure edge joins the success path)", calleeName(call)))
+			ok = false
+			continue
+		}
+		for b := range region {
+			if nr, dead := g.NoRet[b]; dead {
+				if bad := zeroExit(nr, 0); bad != nil {
+					r.Bad(rule, key+"/status", p.Pos(bad.Pos()), "the command exits with status 0 after "+calleeName(call)+" failed")
+					ok = false
+				}
+				continue
+			}
+			if len(g.Succs(b)) == 0 {
+				r.Bad(rule, key, p.Pos(b.Instrs[len(b.Instrs)-1].Pos()), fmt.Sprintf("after %s failed the function returns normally instead of terminating with an error", calleeName(call)))
+				ok = false
+			}
+			for _, sx := range g.Succs(b) {
+				if !region[sx] {
+					r.Bad(rule, key, p.Pos(ec.If.Pos()), fmt.Sprintf("after %s failed the command continues into the success path: it goes on with a missing or partial result", calleeName(call)))
+					ok = false
+				}
+			}
+		}
+	}
+	if ok {
+		r.OK(rule, key, p.Pos(call.Pos()), fmt.Sprintf("failure of %s terminates the command with an error", calleeName(call)))
+	}
+	return ok
+}
